@@ -38,7 +38,7 @@ def out_root() -> str:
 def _pool_run(modname, config, shards, so, merged, fn="run_shard"):
     ctx = mp.get_context("fork")
     n = min(NPROC, max(1, len(shards)))
-    with ctx.Pool(n, initializer=worker.init, initargs=(repo_path(), so, config)) as pool:
+    with ctx.Pool(n, initializer=worker.safe_init, initargs=(repo_path(), so, config)) as pool:
         tasks = [(modname, fn, s) for s in shards]
         it = pool.imap_unordered(worker.run, tasks, chunksize=1)
         for _ in tasks:
